@@ -21,7 +21,8 @@ T0 == [s |-> Down, exp |-> <<>>, fid |-> 0, fault |-> FALSE, skip |-> TRUE, run 
 -----------------------------------------------------------------------------
 (* projection of an event (real or expected) onto the modelled fields *)
 
-ObsP(o) == [st |-> o.st, es |-> o.es, ok |-> o.esr = "ok", chunks |-> o.chunks,
+ObsP(o) == IF "st" \notin DOMAIN o THEN [none |-> 0] ELSE
+           [st |-> o.st, es |-> o.es, ok |-> o.esr = "ok", chunks |-> o.chunks,
             n |-> o.cache.n, sz |-> o.cache.sz, ev |-> o.cache.sev, res |-> o.cache.res,
             ods |-> o.ods, dir |-> o.dir]
 
